@@ -371,11 +371,11 @@ def run(index: RepoIndex, rep) -> None:
     rep.rule('C13.R1', 'error discipline: every raise is ValueError; parameters are not '
              'validated by assert', floor=14)
     rep.rule('C13.R2', 'draws of several cells/colours/columns are without replacement', floor=6)
-    rep.rule('C13.R3', 'advertised inventory by data flow', floor=10, undecided_allowed=2)
+    rep.rule('C13.R3', 'advertised inventory by data flow', floor=10)
     rep.rule('C13.R4', 'the agent cell is separated from exits, obstacles, telepods and '
-             'blocking cells (proved / refuted with witness / undecided)', floor=25, undecided_allowed=0)
+             'blocking cells (proved / refuted with witness / undecided)', floor=25)
     rep.rule('C13.R5', 'a full wall boundary is drawn; later non-wall writes are inside it',
-             floor=8, undecided_allowed=1)
+             floor=8)
     resets = index.registry('reset', 8)
     om = ObjectModel(index)
     blocking = blocking_classes(om)
